@@ -649,12 +649,12 @@ class POXCore (EventMixin):
             attrname = c
           else:
             attrname = '_%s_' % (c,)
-          setattr(sink, attrname, getattr(self, c))
+          setattr(sink, attrname, self.components[c])
       for c in components:
-        if hasattr(getattr(self, c), "_eventMixin_events"):
+        if hasattr(self.components[c], "_eventMixin_events"):
           kwargs = {"prefix":c}
           kwargs.update(listen_args.get(c, {}))
-          getattr(self, c).addListeners(sink, **kwargs)
+          self.components[c].addListeners(sink, **kwargs)
       getattr(sink, "_all_dependencies_met", lambda : None)()
 
 
